@@ -419,6 +419,7 @@ fn c15_batches(tier: &str) -> Vec<Batch> {
     let mut p = c04_profile();
     p.name = "c15".into();
     p.apps_max = 4;
+    p.dup_app_permille = 120;
     p.preset_permille = 400;
     p.extra_fields_permille = 500;
     p.policy.params_vary = 400;
